@@ -71,11 +71,13 @@ def dense_tree(tn, kind, ref_index, nref):
     arr = arr[..., 0]
     labels = labels[:-1]
     if kind == "ttns":
-        order = [labels.index(("s", k)) for k in range(nref)]
+        ks = sorted(l[1] for l in labels if l[0] == "s")
+        order = [labels.index(("s", k)) for k in ks]
         return arr.transpose(order).reshape(-1).astype(complex)
-    order = [labels.index(("u", k)) for k in range(nref)] + [labels.index(("d", k)) for k in range(nref)]
+    ks = sorted(l[1] for l in labels if l[0] == "u")
+    order = [labels.index(("u", k)) for k in ks] + [labels.index(("d", k)) for k in ks]
     a = arr.transpose(order)
-    d = int(np.prod(a.shape[:nref]))
+    d = int(np.prod(a.shape[:len(ks)]))
     return a.reshape(d, d).astype(complex)
 
 
@@ -170,19 +172,52 @@ class TreeWorld:
     def __init__(self, header, stats, scratch=None):
         self.header, self.stats, self.scratch = header, stats, scratch
         self.spec = header["model"]
-        self.basis_objs = [gm.build_basis(s) for s in self.spec["sites"]]
-        self.model = gm.build_model(self.spec, self.basis_objs)   # reference chain model (site order = reference order)
-        self.ref_index = {id(b): k for k, b in enumerate(self.basis_objs)}
-        self.nref = len(self.basis_objs)
-        self.tree_specs = list(header["trees"])
-        self.trees = []
+        self.p_objs = [gm.build_basis(s) for s in self.spec["sites"]]
+        self.np_ = len(self.p_objs)
+        self.aux = bool(header.get("aux"))
+        self.model_p = gm.build_model(self.spec, self.p_objs)
+        self.tree_specs, self.trees, self.space, self.partner = [], [], [], []
         self.ctor_violation = None
-        for ts in self.tree_specs:
-            t = build_tree(ts, self.basis_objs)
+        self.ref_index = {id(b): k for k, b in enumerate(self.p_objs)}
+        if not self.aux:
+            self.basis_objs = list(self.p_objs)
+            self.model = self.model_p   # reference chain model (site order = reference order)
+        else:
+            # purification world: states live on trees with an auxiliary (Q) copy of every basis set, operators on the physical
+            # tree (partial operators) or on the doubled tree; reference order = all P sets, then all Q sets
+            q_objs = []
+            for b in self.p_objs:
+                bq = b.copy(("Q", b.dofs))
+                bq.sigmaqn = np.zeros_like(b.sigmaqn)
+                q_objs.append(bq)
+            self.basis_objs = list(self.p_objs) + q_objs
+            for k, b in enumerate(q_objs):
+                self.ref_index[id(b)] = self.np_ + k
+            self.model = Model(self.basis_objs, [gm.build_op(t) for t in self.spec.get("ham", [])] or [Op("I", self.p_objs[0].dofs[0])])
+        self.nref = len(self.basis_objs)
+        for ts in header["trees"]:
+            t = build_tree(ts, self.p_objs)
             got = sorted(self.ref_index[id(b)] for b in t.basis_list if id(b) in self.ref_index)
-            if got != list(range(self.nref)):
+            if got != list(range(self.np_)):
                 self.ctor_violation = V({"C02", "C11", "C12"}, "C02.tree_ctor.basis_sets", f"tree constructor {ts['ctor']} does not keep every basis set exactly once: {got}")
             self.trees.append(t)
+            self.tree_specs.append(ts)
+            self.space.append("P")
+            self.partner.append(None)
+            if self.aux:
+                t2 = t.add_auxiliary_space()
+                qdof = {str(b.dofs): self.np_ + k for k, b in enumerate(self.p_objs)}
+                for b in t2.basis_list:
+                    if id(b) not in self.ref_index and isinstance(b.dof, tuple) and len(b.dof) == 2 and b.dof[0] == "Q":
+                        self.ref_index[id(b)] = qdof[str(b.dof[1])]
+                got = sorted(self.ref_index[id(b)] for b in t2.basis_list if id(b) in self.ref_index)
+                if got != list(range(self.nref)):
+                    self.ctor_violation = V({"C02", "C11", "C12"}, "C02.tree_ctor.basis_sets", f"add_auxiliary_space on {ts['ctor']} does not give every P and Q set exactly once: {got}")
+                self.trees.append(t2)
+                self.tree_specs.append(dict(ts, space="PQ"))
+                self.space.append("PQ")
+                self.partner.append(len(self.trees) - 2)
+        self.state_space = "PQ" if self.aux else "P"
         self.h = {}
         self.nh = 0
         self.step_no = -1
@@ -190,6 +225,19 @@ class TreeWorld:
         self.fault_counts = {}
         self.xdigest = Digest()
         self.cur_op = ""
+
+    def state_tids(self):
+        return [t for t in range(len(self.trees)) if self.space[t] == self.state_space]
+
+    def op_on(self, eo, es):
+        """matrix of operator entry eo in the space of state entry es (None if they do not fit): same tree, or the physical
+        tree of a doubled tree (partial operator = O x 1_Q)"""
+        if eo.tid == es.tid:
+            return eo.shadow
+        if self.partner[es.tid] is not None and self.partner[es.tid] == eo.tid:
+            dq = es.shadow.shape[0] // eo.shadow.shape[0]
+            return np.kron(eo.shadow, np.eye(dq))
+        return None
 
     def new_handle(self):
         self.nh += 1
@@ -331,7 +379,9 @@ def nonzero(e):
 def op_ttno(w, s):
     tree = w.trees[s["tid"]]
     terms = [gm.build_op(t) for t in s["terms"]]
-    ref = dense.dense_op(w.model, terms)
+    partial = w.aux and w.space[s["tid"]] == "P"
+    model_ = w.model_p if partial else w.model
+    ref = dense.dense_op(model_, terms)
     if float(np.abs(ref).max()) < 1e-14:
         return "skipped"
     rng_before = np.random.get_state()[1].copy()
@@ -345,12 +395,12 @@ def op_ttno(w, s):
     w.put(s["out"], "ttno", ttno, ref, s["tid"], {"terms": s["terms"], "hermitian": herm})
     w.check_value(s["out"], {"C02"}, "C02.ttno.dense", extra_scale=float(sum(abs(t.factor) for t in terms)), what=f"TTNO(algo={s.get('algo')})")
     # the library's own todense in reference order must agree too
-    lib = np.asarray(ttno.todense(order=w.basis_objs))
+    lib = np.asarray(ttno.todense(order=w.p_objs if partial else w.basis_objs))
     sc = max(float(np.linalg.norm(ref)), float(sum(abs(t.factor) for t in terms)))
     if float(np.linalg.norm(lib - ref)) > TOL * sc:
         raise V({"C02"}, "C02.ttno.todense_order", f"TTNO.todense(order) differs from the dense reference by {float(np.linalg.norm(lib - ref)):.3e}")
     if s.get("vs_mpo"):
-        mpo = Mpo(w.model, terms)
+        mpo = Mpo(model_, terms)
         if float(np.linalg.norm(dense.dense_of(mpo) - ref)) > TOL * sc:
             raise V({"C01"}, "C01.mpo.dense", "chain MPO of the same terms differs from the dense reference")
     w.xdigest.add("ttno", *[np.asarray(n.tensor) for n in ttno.node_list])
@@ -359,6 +409,8 @@ def op_ttno(w, s):
 
 @op("ttns_random")
 def op_ttns_random(w, s):
+    if s["tid"] >= len(w.trees) or w.space[s["tid"]] != w.state_space:
+        return "skipped"
     tree = w.trees[s["tid"]]
     qntot = s["qntot"]
     if not dense.sector_mask(w.model, qntot).any():
@@ -385,6 +437,8 @@ def op_ttns_random(w, s):
 
 @op("ttns_product")
 def op_ttns_product(w, s):
+    if s["tid"] >= len(w.trees) or w.space[s["tid"]] != w.state_space:
+        return "skipped"
     tree = w.trees[s["tid"]]
     cond = {(gm._dof(k) if not isinstance(k, str) else k): v for k, v in s["condition"]}
     try:
@@ -404,6 +458,41 @@ def op_ttns_product(w, s):
         vec = np.kron(vec, v)
     w.put(s["out"], "ttns", ttns, vec.astype(complex), s["tid"])
     w.check_value(s["out"], {"C11"}, "C11.product_state", what="TTNS(basis, condition)")
+    return "done"
+
+
+@op("max_entangled")
+def op_max_entangled(w, s):
+    """utils_eph.max_entangled_ex on a doubled tree: the infinite-temperature purification of the one-exciton space"""
+    from renormalizer.tn.utils_eph import max_entangled_ex
+    tid = s["tid"]
+    if not w.aux or tid >= len(w.trees) or w.space[tid] != "PQ" or w.partner[tid] is None:
+        return "skipped"
+    if any(not (b.is_electron or b.is_phonon) for b in w.p_objs) or not any(b.is_electron for b in w.p_objs):
+        return "skipped"
+    if any(bn.n_sets > 2 for bn in w.trees[tid].node_list):
+        return "skipped"     # documented layout: one physical set (+ its auxiliary copy) per node
+    try:
+        ttns = max_entangled_ex(w.trees[tid])
+    except Exception as ex:
+        raise V({"C10", "C12"}, "C10.tree.max_entangled.raised", f"max_entangled_ex on {w.tree_specs[tid].get('ctor')}: {type(ex).__name__}: {ex}", sig=f"C10.tree.max_entangled.raised:{type(ex).__name__}")
+    dims = [b.nbas for b in w.p_objs]
+    n = w.np_
+    elec = [k for k, b in enumerate(w.p_objs) if b.is_electron]
+    ref = np.zeros(dims + dims)
+    ph = [k for k in range(n) if k not in elec]
+    for ex_site in elec:
+        for js in itertools.product(*[range(dims[k]) for k in ph]):
+            idx = [0] * n
+            for k, j in zip(ph, js):
+                idx[k] = j
+            idx[ex_site] = 1
+            ref[tuple(idx + idx)] = 1.0
+    ref = ref.reshape(-1)
+    ref = ref / np.linalg.norm(ref)
+    w.put(s["out"], "ttns", ttns, ref.astype(complex), tid, {"thermal": True})
+    w.check_value(s["out"], {"C10", "C12", "C11"}, "C10.tree.max_entangled.dense", what="max_entangled_ex")
+    w.stats.probes["tree_max_entangled"] += 1
     return "done"
 
 
@@ -427,6 +516,8 @@ def op_from_mps(w, s):
     # the new linear tree shares the basis objects: register it as a new topology
     w.trees.append(basis)
     w.tree_specs.append({"ctor": "from_mps"})
+    w.space.append(w.state_space)
+    w.partner.append(None)
     tid = len(w.trees) - 1
     w.put(s["out"], "ttns", ttns, ref, tid)
     w.check_value(s["out"], {"C11"}, "C11.from_mps", what="from_mps")
@@ -495,22 +586,27 @@ def op_apply(w, s):
     if not w.live_ok(a, b):
         return "skipped"
     eo, es = w.h[a], w.h[b]
-    if eo.kind != "ttno" or es.kind != "ttns" or eo.tid != es.tid or not nonzero(es):
+    if eo.kind != "ttno" or es.kind != "ttns" or not nonzero(es):
+        return "skipped"
+    omat = w.op_on(eo, es)
+    if omat is None:
         return "skipped"
     try:
         res = eo.obj @ es.obj if s.get("matmul") else eo.obj.apply(es.obj, canonicalise=bool(s.get("canonicalise")))
     except (Violation, HarnessError):
         raise
     except Exception as ex:
-        rn = float(np.linalg.norm(eo.shadow @ es.shadow))
-        if s.get("canonicalise") and rn < 1e-10 * float(np.linalg.norm(eo.shadow, 2) * np.linalg.norm(es.shadow)):
+        rn = float(np.linalg.norm(omat @ es.shadow))
+        if s.get("canonicalise") and rn < 1e-10 * float(np.linalg.norm(omat, 2) * np.linalg.norm(es.shadow)):
             w.stats.probes["apply_canonicalise_zero_refused"] += 1
             return "skipped"
         raise V({"C11"}, "C11.apply.raised", f"TTNO.apply (result norm {rn:.3e}): {type(ex).__name__}: {ex}", sig=f"C11.apply.raised:{type(ex).__name__}")
-    ref = eo.shadow @ es.shadow
-    sc = float(np.linalg.norm(eo.shadow, 2) * np.linalg.norm(es.shadow))
+    ref = omat @ es.shadow
+    sc = float(np.linalg.norm(omat, 2) * np.linalg.norm(es.shadow))
+    if omat is not eo.shadow:
+        w.stats.probes["partial_operator:apply"] += 1
     w.put(s["out"], "ttns", res, ref, es.tid)
-    w.check_value(s["out"], {"C11"}, "C11.apply.dense", extra_scale=sc, what="TTNO @ TTNS")
+    w.check_value(s["out"], {"C11"}, "C11.apply.dense", extra_scale=sc, what="TTNO @ TTNS" + (" (partial operator)" if omat is not eo.shadow else ""))
     deferred(w, s["out"], sc)
     return "done"
 
@@ -695,12 +791,17 @@ def op_observe(w, s):
             raise V({"C11"}, "C11.todense_order", f"TTNS.todense(order={s.get('order')}) differs from the dense reference")
     elif which == "expectation":
         b = s["b"]
-        if not w.live_ok(b) or w.h[b].kind != "ttno" or w.h[b].tid != e.tid:
+        if not w.live_ok(b) or w.h[b].kind != "ttno":
             return "skipped"
         eo = w.h[b]
+        omat = w.op_on(eo, e)
+        if omat is None:
+            return "skipped"
+        if omat is not eo.shadow:
+            w.stats.probes["partial_operator:expectation"] += 1
         got = tn.expectation(eo.obj)
-        ref = complex(np.vdot(t, eo.shadow @ t))
-        sc = n2 * float(np.linalg.norm(eo.shadow, 2))
+        ref = complex(np.vdot(t, omat @ t))
+        sc = n2 * float(np.linalg.norm(omat, 2))
         if isinstance(got, float) and abs(ref.imag) <= 1.0001e-8:
             ref = complex(ref.real, 0)
         if abs(complex(got) - ref) > 1e-9 * max(sc, abs(ref), 1e-300):
@@ -862,12 +963,16 @@ def op_evolve(w, s):
     if not w.live_ok(a, hh):
         return "skipped"
     e, eh = w.h[a], w.h[hh]
-    if e.kind != "ttns" or eh.kind != "ttno" or eh.tid != e.tid or not eh.meta.get("hermitian") or not nonzero(e) or len(e.obj.node_list) < 2:
+    if e.kind != "ttns" or eh.kind != "ttno" or not eh.meta.get("hermitian") or not nonzero(e) or len(e.obj.node_list) < 2:
         return "skipped"
+    H = w.op_on(eh, e)
+    if H is None:
+        return "skipped"
+    if H is not eh.shadow:
+        w.stats.probes["partial_operator:evolve"] += 1
     method = s["method"]
     imag = s["dt"][1] != 0
     dt = complex(0, s["dt"][1]) if imag else float(s["dt"][0])
-    H = eh.shadow
     qntot = np.asarray(e.obj.qntot).reshape(-1)
     mask = dense.sector_mask(w.model, qntot)
     hn = float(np.linalg.norm(H[np.ix_(mask, mask)], 2)) if mask.any() else 0.0
@@ -1130,6 +1235,8 @@ def _real_hamiltonian(rnd, spec):
 @prop("ttno")
 def p_ttno(w, rnd):
     tid = rnd.randrange(len(w.trees))
+    if w.tree_specs[tid].get("ctor") == "from_mps" and rnd.random() < 0.7:
+        tid = rnd.randrange(len(w.header["trees"]) * (2 if w.aux else 1))
     zero = [0] * w.spec["qn_size"]
     r = rnd.random()
     if r < 0.45:
@@ -1151,13 +1258,16 @@ def p_ttno_same(w, rnd):
     if not hs or len(w.trees) < 2:
         return None
     e = w.h[rnd.choice(hs)]
-    tid = rnd.choice([t for t in range(len(w.trees)) if t != e.tid])
+    c = [t for t in range(len(w.trees)) if t != e.tid and w.space[t] == w.space[e.tid]]
+    if not c:
+        return None
+    tid = rnd.choice(c)
     return {"op": "ttno", "tid": tid, "terms": e.meta["terms"], "algo": rnd.choice(["Hopcroft-Karp", "qr"]), "out": w.new_handle()}
 
 
 @prop("ttns_random")
 def p_ttns_random(w, rnd):
-    tid = rnd.randrange(len(w.trees))
+    tid = rnd.choice(w.state_tids())
     secs = gm.reachable_sectors(w.model)
     present = [tuple(np.asarray(w.h[x].obj.qntot).reshape(-1).tolist()) for x in w.handles("ttns")]
     q = rnd.choice(present) if present and rnd.random() < 0.6 else rnd.choice(secs)
@@ -1172,13 +1282,21 @@ def p_ttns_random(w, rnd):
 
 @prop("ttns_product")
 def p_ttns_product(w, rnd):
-    tid = rnd.randrange(len(w.trees))
+    tid = rnd.choice(w.state_tids())
     cond = []
     for site in w.spec["sites"]:
         if rnd.random() < 0.6:
             d = gm.site_dofs(site)[0]
             cond.append([list(d) if isinstance(d, tuple) else d, rnd.randrange(gm.site_nbas(site))])
     return {"op": "ttns_product", "tid": tid, "condition": cond, "out": w.new_handle()}
+
+
+@prop("max_entangled")
+def p_max_entangled(w, rnd):
+    if not w.aux:
+        return None
+    c = [t for t in range(len(w.trees)) if w.space[t] == "PQ" and w.partner[t] is not None]
+    return {"op": "max_entangled", "tid": rnd.choice(c), "out": w.new_handle()} if c else None
 
 
 @prop("from_mps")
@@ -1231,7 +1349,7 @@ def p_apply(w, rnd):
     ops = w.handles("ttno")
     rnd.shuffle(ops)
     for a in ops:
-        st = w.handles("ttns", w.h[a].tid, pred=lambda e: nonzero(e) and max(e.obj.bond_dims) * max(w.h[a].obj.bond_dims) <= 60)
+        st = w.handles("ttns", pred=lambda e: (e.tid == w.h[a].tid or w.partner[e.tid] == w.h[a].tid) and nonzero(e) and max(e.obj.bond_dims) * max(w.h[a].obj.bond_dims) <= 60)
         if st:
             return {"op": "apply", "a": a, "b": rnd.choice(st), "matmul": rnd.random() < 0.3, "canonicalise": rnd.random() < 0.3, "out": w.new_handle()}
     return None
@@ -1274,7 +1392,7 @@ def p_observe(w, rnd):
             rnd.shuffle(order)
             s["order"] = order
     elif which == "expectation":
-        ops = w.handles("ttno", e.tid)
+        ops = w.handles("ttno", e.tid) + (w.handles("ttno", w.partner[e.tid]) if w.partner[e.tid] is not None else [])
         if not ops:
             return None
         s["b"] = rnd.choice(ops)
@@ -1298,14 +1416,14 @@ def p_evolve(w, rnd):
     hams = w.handles("ttno", pred=lambda e: e.meta.get("hermitian"))
     rnd.shuffle(hams)
     for hh in hams:
-        st = w.handles("ttns", w.h[hh].tid, pred=lambda e: nonzero(e) and len(e.obj.node_list) >= 2)
+        st = w.handles("ttns", pred=lambda e: (e.tid == w.h[hh].tid or w.partner[e.tid] == w.h[hh].tid) and nonzero(e) and len(e.obj.node_list) >= 2)
         if not st:
             continue
         a = rnd.choice(st)
         e = w.h[a]
         qntot = np.asarray(e.obj.qntot).reshape(-1)
         mask = dense.sector_mask(w.model, qntot)
-        H = w.h[hh].shadow
+        H = w.op_on(w.h[hh], e)
         hn = float(np.linalg.norm(H[np.ix_(mask, mask)], 2)) if mask.any() else 0.0
         if hn < 1e-3:
             continue
@@ -1360,8 +1478,12 @@ def propose(w, rnd, weights):
     return None
 
 
-def gen_header(rnd, maxdim=64, nmax=5):
-    spec = gm.gen_sites(rnd, flavour=rnd.choice(["spin", "spinqn", "eph", "eph", "mixed", "two", "multi"]), nmin=2, nmax=nmax, maxdim=maxdim)
+def gen_header(rnd, maxdim=64, nmax=5, aux=False):
+    if aux:
+        # every basis set gets an auxiliary copy: single-dof sets only (BasisSet.copy), small physical dimension
+        spec = gm.gen_sites(rnd, flavour=rnd.choice(["spin", "spinqn", "eph", "eph", "eph", "two"]), nmin=2, nmax=min(nmax, 3), maxdim=min(maxdim, 12))
+    else:
+        spec = gm.gen_sites(rnd, flavour=rnd.choice(["spin", "spinqn", "eph", "eph", "mixed", "two", "multi"]), nmin=2, nmax=nmax, maxdim=maxdim)
     for site in spec["sites"]:
         site.pop("x0", None)
     spec["ham"] = _real_hamiltonian(rnd, spec) or []
@@ -1372,4 +1494,13 @@ def gen_header(rnd, maxdim=64, nmax=5):
         trees.append(re)
     for _ in range(rnd.randint(0, 2)):
         trees.append(gen_tree_spec(rnd, nb))
-    return {"model": spec, "trees": trees}
+    h = {"model": spec, "trees": trees}
+    if aux:
+        h["aux"] = True
+        if rnd.random() < 0.7:
+            # layouts accepted by max_entangled_ex: one physical set per node
+            h["trees"] = [t if t["ctor"] != "explicit" else dict(t, ctor=rnd.choice(["linear", "binary", "t3ns", "mctdh2"]), perm=list(range(nb)), contract_primitive=True) for t in trees]
+            for t in h["trees"]:
+                if t["ctor"] in ("mctdh2", "mctdh3"):
+                    t["contract_primitive"] = True
+    return h
